@@ -189,7 +189,7 @@ def run(pid, tier, seed):
         out = 'x\n{"files":[{"path":"/a/b.c","status":"OK","errors":[{"name":"N","text":"t","level":"Notice","highlights":[{"lineno":1,"column":2,"length":null,"hint":null}]}]}]}\n'
     if parse(R, "json") != ("OK", frozenset({("Notice", "N", 1, 2)})):
         raise core.HarnessError("json parser self-test failed")
-    shards, n, real_every = (8, 12, 6) if tier == "quick" else (16, 250, 10)
+    shards, n, real_every = (16, 30, 15) if tier == "quick" else (16, 250, 10)
     camp = core.Campaign()
     for name, rc in core.regress_cases(pid):
         for k, what in replay(pid, rc["case"]):
